@@ -131,11 +131,16 @@ func (s *RegionStorage) SaveRegion(region *metapb.Region) error {
 func (s *RegionStorage) DeleteRegion(region *metapb.Region) error {
 	s.mu.Lock()
 	defer s.mu.Unlock()
-	delete(s.batchRegions, regionPath(region.GetId()))
-	return deleteRegion(s.LeveldbKV, region)
+	key := regionPath(region.GetId())
+	delete(s.batchRegions, key)
+	return s.LeveldbKV.Remove(key)
 }
 
 func deleteRegion(kv kv.Base, region *metapb.Region) error {
+	if rs, ok := kv.(*RegionStorage); ok {
+		// also drop the region from the batch waiting to be flushed
+		return rs.DeleteRegion(region)
+	}
 	return kv.Remove(regionPath(region.GetId()))
 }
 
